@@ -64,6 +64,7 @@ class Engine(ExprMixin, StmtMixin, CallMixin):
                                  key=lambda n: (n.lineno, n.col_offset))
         self.is_generator = contains_yield(self.fdef.body) and spec.yields is not None
         self.paths = []       # terminal outcomes: (state, outcome)
+        self.entry = None
         self.init_vals = {}
 
     def new_id(self):
@@ -140,7 +141,13 @@ class Engine(ExprMixin, StmtMixin, CallMixin):
             if len(st.out_arr) == 1:
                 return IntV(z3.Select(st.out_arr[0], jj))
             return TupV([IntV(z3.Select(a, jj)) for a in st.out_arr])
-        fs = {'__getattr__': getattr_hook, 'has': has, 'OUT': OUT}
+        def rest(pe, it):
+            if not (isinstance(it, RefV) and it.kind == 'iter'):
+                raise Unsupported('rest() of %r' % (it,))
+            seq = st.heap[(it.id, 'seq')]
+            pos = to_int(st.heap[(it.id, 'pos')])
+            return SeqV(z3.SubSeq(seq.t, pos, z3.Length(seq.t) - pos), 'list')
+        fs = {'__getattr__': getattr_hook, 'has': has, 'OUT': OUT, 'rest': rest}
         fs.update(self.spec.hints.get('funcs', {}))
         return fs
 
@@ -179,8 +186,16 @@ class Engine(ExprMixin, StmtMixin, CallMixin):
             return cur
         return v
 
+    def old_evaluator(self, st0, defs):
+        """old(expr): expr evaluated in the (entry / pre-call) state st0"""
+        def ev_old(node):
+            pe = PureEval(self.contract_ns(st0, None, init=True), defs=defs, funcs=self.contract_funcs(st0))
+            return pe.ev(node)
+        return ev_old
+
     def contract_value(self, text, st, extra=None, init=False):
-        pe = PureEval(self.contract_ns(st, extra, init), defs=self.spec.defs, funcs=self.contract_funcs(st))
+        pe = PureEval(self.contract_ns(st, extra, init), defs=self.spec.defs, funcs=self.contract_funcs(st),
+                      old_eval=self.old_evaluator(self.entry, self.spec.defs) if getattr(self, 'entry', None) is not None else None)
         v = pe.text(text)
         return v, pe.facts
 
@@ -277,6 +292,16 @@ class Engine(ExprMixin, StmtMixin, CallMixin):
             rid = self.new_id()
             s.heap[(rid, 'val')] = SeqV(t, 'list')
             return RefV(rid, 'list'), s
+        if sort == 'Iter':
+            seq = z3.Const(name + '.seq', IntSeq)
+            pos = z3.Int(name + '.pos')
+            s = st.clone()
+            rid = self.new_id()
+            s.heap[(rid, 'seq')] = SeqV(seq, 'list')
+            s.heap[(rid, 'pos')] = IntV(pos)
+            s.pc += [pos >= 0, pos <= z3.Length(seq)]
+            self.tracked_refs.add(rid)
+            return RefV(rid, 'iter'), s
         if sort == 'PairList':
             n = z3.Int(name + '.len')
             fa = z3.Function(name + '.a', z3.IntSort(), z3.IntSort())
